@@ -748,6 +748,41 @@ class VisibleUnit(ScopeUnit):
     contract = VISIBLE_PROP
     contracts = {"CancelScope._effectively_cancelled": EFF_PROP}
 
+    def loop_spec_by_shape(self, node, f):
+        """the pinned code delegates to `_effectively_cancelled`; an edit that walks the parent chain itself (seed C04-s4) is
+        given the same invariant template as that walk: the answer for the cursor equals the answer for the scope the walk
+        started from, and nothing is modified"""
+        import ast as _ast
+
+        if not isinstance(node, _ast.While):
+            return None
+        box = {}
+
+        def inv(ip, env):
+            u = ip.ctx.unit
+            h = H(ip.st)
+            cur_scope = ip.term(local_of_type(env, CS, "scope"), CS)
+            if "start" not in box:
+                box["start"] = cur_scope  # first evaluation = loop entry
+            pre = u.seg
+            return [
+                ("walk_preserves_the_answer", eff(h, cur_scope) == eff(h, box["start"])),
+                ("cursor_is_a_scope_or_None", z3.Or(cur_scope == 0, z3.And(cur_scope > 0, z3.Select(h.arr("$", "alloc"), cur_scope)))),
+                ("nothing_is_modified", z3.And(tree_same(pre, h), scope_fields_same(pre, h, u.self_val.t))),
+            ]
+
+        def after_havoc(ip, env):
+            u = ip.ctx.unit
+            h = H(ip.st)
+            for n, t in SCOPE.assumed_terms(h, u.self_val.t, ip.ctx.cur.t):
+                ip.st.assume(t)
+            c_ = ip.term(local_of_type(env, CS, "scope"), CS)
+            ip.st.assume(eff_unfold(h, c_))
+            ip.st.assume(eff_unfold(h, z3.IntVal(0)))
+            ip.st.assume(eff_unfold(h, box["start"]))
+
+        return LoopSpec(inv, modifies=set(), after_havoc=after_havoc, local_types={"scope": CS})
+
 
 def exc_arg(ip):
     """the exception that reaches __exit__: none, a CancelledError (AnyIO-tagged or native), another exception, or a
